@@ -381,34 +381,31 @@ func (p *vfR3Pool) specs(report []vfR3Inst) map[string]*serviceregistry.ServiceI
 func (p *vfR3Pool) yaml() string {
 	var b strings.Builder
 	b.WriteString("name: proxy\nkind: Proxy\npools:\n")
-	write := func() {
-		// the pool under test
-		b.WriteString("- servers:\n")
-		for _, s := range p.Static {
-			b.WriteString("  - url: " + strconv.Quote(s.URL()) + "\n")
-			if s.KeepHost {
-				b.WriteString("    keepHost: true\n")
-			}
-		}
-		if p.Source == "discovery" {
-			b.WriteString("  serviceName: " + p.Service + "\n")
-			if p.Feed == "registry" {
-				b.WriteString("  serviceRegistry: " + p.Registry + "\n")
-			}
-			b.WriteString("  serverTags: [" + strings.Join(p.ServerTags, ", ") + "]\n")
-		}
-		if p.Policy != "" {
-			b.WriteString("  loadBalance:\n    policy: " + p.Policy + "\n")
-		}
-		if p.Candidate {
-			b.WriteString("  filter:\n    headers:\n      X-Vf-Pool:\n        exact: cand\n")
-		}
-	}
 	if p.Candidate {
 		// main pool nobody must be sent to
 		b.WriteString("- servers:\n  - url: \"http://192.0.2.9:9\"\n")
 	}
-	write()
+	// the pool under test
+	b.WriteString("- servers:\n")
+	for _, s := range p.Static {
+		b.WriteString("  - url: " + strconv.Quote(s.URL()) + "\n")
+		if s.KeepHost {
+			b.WriteString("    keepHost: true\n")
+		}
+	}
+	if p.Source == "discovery" {
+		b.WriteString("  serviceName: " + p.Service + "\n")
+		if p.Feed == "registry" {
+			b.WriteString("  serviceRegistry: " + p.Registry + "\n")
+		}
+		b.WriteString("  serverTags: [" + strings.Join(p.ServerTags, ", ") + "]\n")
+	}
+	if p.Policy != "" {
+		b.WriteString("  loadBalance:\n    policy: " + p.Policy + "\n")
+	}
+	if p.Candidate {
+		b.WriteString("  filter:\n    headers:\n      X-Vf-Pool:\n        exact: cand\n")
+	}
 	return b.String()
 }
 
@@ -571,6 +568,8 @@ func TestVerifC03Render(t *testing.T) {
 		if err != nil {
 			rt.Fatalf("VF-INCONCLUSIVE generator produced a proxy spec that validation rejects: %v\n%s", err, y)
 		}
+		// the per-case service / registry names stay out of the case description (distinct-case hash)
+		yDesc := strings.ReplaceAll(strings.ReplaceAll(y, pool.Service, "vfsvc"), pool.Registry, "vfreg")
 		px := kind.CreateInstance(spec).(*Proxy)
 		px.Init()
 		px.InjectResiliencePolicy(map[string]resilience.Policy{})
@@ -695,7 +694,7 @@ func TestVerifC03Render(t *testing.T) {
 				nreq = rapid.IntRange(1, len(live)+1).Draw(rt, "nreq-phase")
 			}
 			for i := 0; i < nreq; i++ {
-				vfR3One(rt, vf, px, pool, ph.name, live, history, y)
+				vfR3One(rt, vf, px, pool, ph.name, live, history, yDesc)
 			}
 		}
 	})
@@ -703,7 +702,7 @@ func TestVerifC03Render(t *testing.T) {
 
 // vfR3One sends one generated request through the Proxy and judges what was handed to the transport.
 func vfR3One(rt *rapid.T, vf *vfCollector, px *Proxy, pool *vfR3Pool, phase string, live []vfR3Server, history, y string) {
-	for once := true; once; once = false {
+	for once := true; once; once = false { // "continue" = this request is done (a listed known finding was hit)
 		q := vfR3GenReq(rt)
 		if pool.Candidate {
 			q.E2E = append(q.E2E, [2]string{"X-Vf-Pool", "cand"})
